@@ -79,9 +79,27 @@ func c14TableKeys(c *Ctx, p *Prog) {
 		c.Undecided(R, "printTables:table", site, why)
 		return
 	}
+	// the .unit test may have been applied once, before the tables are walked: the loop then ranges over a list into
+	// which a field is put only where its name is known not to be ".unit"
+	preFiltered := false
+	for b := range lp.Blocks {
+		for _, in := range b.Instrs {
+			if ia, ok := in.(*ssa.IndexAddr); ok {
+				if sl, ok := ia.X.Type().Underlying().(*types.Slice); ok && strings.HasSuffix(sl.Elem().String(), "benchproc.Field") {
+					if c14ListWithoutUnit(ia.X, map[ssa.Value]bool{}) {
+						preFiltered = true
+					}
+				}
+			}
+		}
+	}
 	n := 0
 	for _, o := range outs {
 		var unit, zero, differs *bool
+		if preFiltered {
+			f := false
+			unit = &f
+		}
 		var extra []string
 		for _, k := range o.AtomKeys() {
 			v := o.Assign[k]
@@ -926,4 +944,61 @@ func c14Units(c *Ctx, p *Prog, R string) {
 		}
 	}
 	c.Floor(R, "writes to the reader's unit table", n, 1)
+}
+
+// c14ListWithoutUnit: every element of the slice v was appended where the element's Name is known to differ from
+// ".unit" (v is nil, or an append of such an element onto such a list, or a phi of such lists).
+func c14ListWithoutUnit(v ssa.Value, seen map[ssa.Value]bool) bool {
+	if seen[v] {
+		return true
+	}
+	seen[v] = true
+	switch x := v.(type) {
+	case *ssa.Const:
+		return x.IsNil()
+	case *ssa.Phi:
+		for _, e := range x.Edges {
+			if !c14ListWithoutUnit(e, seen) {
+				return false
+			}
+		}
+		return true
+	case *ssa.Call:
+		bi, ok := x.Call.Value.(*ssa.Builtin)
+		if !ok || bi.Name() != "append" || len(x.Call.Args) != 2 || !c14ListWithoutUnit(x.Call.Args[0], seen) {
+			return false
+		}
+		// the appended element: append(list, e) builds a one-element array
+		sl, ok := x.Call.Args[1].(*ssa.Slice)
+		if !ok {
+			return false
+		}
+		al, ok := sl.X.(*ssa.Alloc)
+		if !ok {
+			return false
+		}
+		sts := storesInto(al)
+		if len(sts) != 1 {
+			return false
+		}
+		elem := sts[0].Val
+		for _, f := range factsAt(x.Block()) {
+			bo, ok := f.Cond.(*ssa.BinOp)
+			if !ok {
+				continue
+			}
+			if s, ok := constString(bo.Y); !ok || s != ".unit" {
+				continue
+			}
+			fld, base := loadOfField(bo.X)
+			if fld == nil || fld.Name() != "Name" || base != elem {
+				continue
+			}
+			if (bo.Op == token.NEQ && f.True) || (bo.Op == token.EQL && !f.True) {
+				return true
+			}
+		}
+		return false
+	}
+	return false
 }
